@@ -189,6 +189,9 @@ func provTransfer(r *Routine, in *Instr, e *Effect, st provState) provState {
 				out[a[1].Reg] = provOf("s:" + a[0].Sym)
 			} else {
 				p := st.get(a[0].Reg).clone()
+				if a[0].Index != "" {
+					p = p.join(st.get(a[0].Index)) // the index register flows into the address
+				}
 				p.Const = nil
 				out[a[1].Reg] = p
 			}
